@@ -10,7 +10,10 @@ issue a never-repeating session id per login, a clock that jumps at every step):
      function default in aioswitcher.*) built from those runs; reports states, transitions and whether
      every (state, operation) pair was executed (graph closed => longer sequences add nothing new
      modulo state outside the fingerprint);
- (c) interleavings: two API instances (different ids/keys, same or different API type) run their
+ (a') the same sequences to depth 2 (thorough 3) with the clock frozen, so that consecutive operations fall
+     into one clock second (no operation may lean on "the time has moved on" to start afresh);
+ (c) interleavings: two API instances (different ids/keys, same or different API type, configured with the
+     same host address in half of the pairs and different addresses in the rest) run their
      operations as concurrent tasks; the only freedom is which connection's pending read the device
      answers next, and every such order is executed.
 
@@ -134,6 +137,7 @@ def check_op(res, case, who, kind, did, key, rec, session, frames, wtimes):
 
 def run_sequence(kind, names, res, case, record_states=True):
     set_zone("UTC")
+    frozen = bool(case.get("frozen"))  # every operation of the sequence happens within one clock second
     with Clock(T0) as clk, ApiWorld(kind, *IDS[0], device=Device(0x5E000000)) as w:
         out = w.connect()
         if out[0] != "ok":
@@ -144,12 +148,13 @@ def run_sequence(kind, names, res, case, record_states=True):
             res.state(st)
         checked = 0
         for n, name in enumerate(names):
-            clk.shift(100.0)
+            if not frozen:
+                clk.shift(100.0)
             op, args, script, shape, outc = resolve(name)
             s0 = len(w.device.sessions)
             t0 = clk.now
             w0 = len(w.conn.writes)
-            hooked = _shifting(w.device, clk)
+            hooked = _shifting(w.device, clk) if not frozen else None
             outcome, writes, rx = w.run_op(op, args, script=script, state2_reply=state2_for(op))
             _unhook(w.device, hooked)
             sess = w.device.sessions[s0] if len(w.device.sessions) > s0 else None
@@ -185,6 +190,8 @@ def _shifting(device, clk):
 
 
 def _unhook(device, orig):
+    if orig is None:
+        return
     try:
         del device.respond
     except AttributeError:
@@ -196,7 +203,7 @@ def _unhook(device, orig):
 
 
 def run_interleaved(ch, spec, res, case):
-    """spec: [(kind, [names]), (kind, [names])]"""
+    """spec: [(kind, [names]), (kind, [names])]; case["same_host"]: both instances are configured with one ip address"""
     set_zone("UTC")
     loop = new_loop()
     recs = [[], []]
@@ -205,7 +212,7 @@ def run_interleaved(ch, spec, res, case):
         with Clock(T0) as clk:
             worlds = []
             for i, (kind, names) in enumerate(spec):
-                w = ApiWorld(kind, *IDS[i], ip="192.168.7.%d" % (21 + i), loop=loop, device=Device(0x5E000000 + i * 0x20000000))
+                w = ApiWorld(kind, *IDS[i], ip="192.168.7.%d" % (21 + (0 if case.get("same_host") else i)), loop=loop, device=Device(0x5E000000 + i * 0x20000000))
                 if w.connect()[0] != "ok":
                     res.violation("connect-failed", case, "connect failed")
                     return None
@@ -319,6 +326,8 @@ def jobs(tier, seed):
                 js.append({"part": "seq", "kind": kind, "prefix": [first], "depth": 1})
             else:
                 js.append({"part": "seq", "kind": kind, "prefix": [first], "depth": D})
+    for kind in (1, 2):
+        js.append({"part": "frozen", "kind": kind, "depth": 3 if tier == "thorough" else 2})
     specs = pair_specs(tier)
     n = 48 if tier == "thorough" else 16
     for i in range(n):
@@ -328,6 +337,15 @@ def jobs(tier, seed):
 
 def run_job(job):
     res = Res()
+    if job["part"] == "frozen":
+        kind = job["kind"]
+        for n in range(1, job["depth"] + 1):
+            for names in itertools.product(ALPHA[kind], repeat=n):
+                case = {"part": "seq", "kind": kind, "names": list(names), "frozen": True}
+                checked = run_sequence(kind, list(names), res, case, record_states=False)
+                res.traces += 1
+                res.case(("frozen", kind, names), nontrivial=checked >= 2)
+        return res
     if job["part"] == "seq":
         kind, prefix, D = job["kind"], job["prefix"], job["depth"]
         alpha = ALPHA[kind]
@@ -346,8 +364,10 @@ def run_job(job):
         for spec in specs:
             orders = set()
 
-            def run(ch, spec=spec):
-                case = {"part": "inter", "spec": spec, "choices": None}
+            same_host = (khash(repr(spec)) % 2) == 0 or spec[0][0] == spec[1][0] == 1 and len(spec[0][1]) == 1
+
+            def run(ch, spec=spec, same_host=same_host):
+                case = {"part": "inter", "spec": spec, "choices": None, "same_host": same_host}
                 r = Res()
                 order = run_interleaved(ch, spec, r, case)
                 return r, order
